@@ -193,13 +193,16 @@ func (g *gctx) node(depth int) *Node {
 		n := &Node{K: KLoop}
 		g.loopShape(n)
 		named := (g.f.Wide || g.f.NamedLoops) && n.Min != n.Max && rapid.IntRange(0, 3).Draw(g.t, "named") == 0
+		wantMin := 0
 		if g.f.NamedLoops && !g.f.Wide {
 			if g.inSub != "" {
 				named = false // keep named loops out of subroutine bodies in the model-based checks
 			}
 			if named {
 				// a named loop is not unrolled, so its zero-width guard also rejects an empty
-				// *mandatory* iteration (unnamed loops allow it): undocumented -> min 0 only
+				// *mandatory* iteration (unnamed loops allow it): undocumented -> min 0 only,
+				// unless the body turns out to be unable to match nothing (restored below)
+				wantMin = n.Min
 				n.Min = 0
 				if n.Max == 0 {
 					n.Max = 1
@@ -226,6 +229,9 @@ func (g *gctx) node(depth int) *Node {
 		n.Body = g.node(depth - 1)
 		if named {
 			g.inNamed--
+			if wantMin > 0 && (n.Max == -1 || wantMin <= n.Max) && !Nullable(n.Body, nil) {
+				n.Min = wantMin // a mandatory iteration of such a body always consumes
+			}
 		}
 		g.allowDef, g.loopProd = saved, savedProd
 		if named {
